@@ -76,6 +76,11 @@ func (c *DSLContext) Roots() ([]Root, error) {
 	rootDeps := make(map[string][]Root, len(c.roots))
 	rootByName := make(map[string]Root, len(c.roots))
 	for _, r := range c.roots {
+		for _, dep := range r.DependsOn() {
+			if dep.EvalName() == r.EvalName() {
+				return nil, fmt.Errorf("dependency cycle: %s depends on itself", r.EvalName())
+			}
+		}
 		sorted := sortDependencies(c.roots, r, func(r Root) []Root { return r.DependsOn() })
 		length := len(sorted)
 		for i := 0; i < length/2; i++ {
